@@ -130,6 +130,46 @@ pub fn run(tier: Tier, seed: u64) -> i32 {
             }
         }
     }
+    // variables named like outputs must not leak into the reported output values
+    for (vi, wrap) in ["let Q = 7; let R = 8;", "rows inside loop(Q,2)"].iter().enumerate() {
+        let mut body2 = vec![];
+        if vi == 0 {
+            body2.push(Stmt::Let("Q".into(), lit(7)));
+            body2.push(Stmt::Let("R".into(), lit(8)));
+            body2.extend(prog.body.iter().take(3).cloned());
+        } else {
+            body2.push(Stmt::Loop("Q".into(), lit(2), prog.body.iter().take(2).cloned().collect()));
+        }
+        let p2 = Program { header: prog.header.clone(), body: body2 };
+        let sigs = vec![Sig::inp("A", 1, 0), outs[0].clone(), outs[1].clone(), outs[2].clone()];
+        let names = ["R".to_string(), "Q".to_string()];
+        let mut menu = vec![];
+        for a in &full {
+            for b in [V::Num(3), V::Z] {
+                menu.push(MenuItem::ans(vec![(names[0].clone(), *a), (names[1].clone(), b)]));
+            }
+        }
+        cases.push(Case::new(&format!("variables named like outputs ({wrap})"), p2, sigs, true, menu.clone(), menu, 12));
+    }
+    // a bidirectional D next to an output that is literally called D_out
+    {
+        let sigs = vec![Sig::bidir("D", 4, V::Num(1)), Sig::inp("A", 1, 0), Sig::out("D_out", 8)];
+        let p3 = Program { header: vec!["A".into(), "D_out".into()], body: (0..3).map(|j| Stmt::Row(vec![Entry::Lit(j % 2, Radix::Dec), exp(j as usize + 2)])).collect() };
+        for layout in ordered_selections(2, 2) {
+            let names: Vec<String> = layout.iter().map(|&i| ["D", "D_out"][i].to_string()).collect();
+            let mut menu = vec![];
+            let n = full.len().pow(names.len() as u32);
+            for mut code in 0..n {
+                let mut a: Answer = vec![];
+                for nm in &names {
+                    a.push((nm.clone(), full[code % full.len()]));
+                    code /= full.len();
+                }
+                menu.push(MenuItem::ans(a));
+            }
+            cases.push(Case::new(&format!("bidirectional D and an output named D_out, layout {names:?}"), p3.clone(), sigs.clone(), true, menu.clone(), menu, 8));
+        }
+    }
     let ncases = cases.len();
     let res = explore(cases, oracle(), true, &deadline);
     let mut st = res.stats;
